@@ -12,7 +12,9 @@ ALL = ['C%02d' % i for i in range(1, 19)]
 
 # theorems (fully qualified Lean names) that decide each property on the model
 THEOREMS = {p: [] for p in ALL + ['TIE']}
-THEOREMS['C01'] = ['FB.buildGo_refines', 'FB.first_build_refines', 'FB.run_refines', 'FB.replay_sound', 'FB.replay_simple_sound',
+THEOREMS['C01'] = ['FB.history_refines', 'FB.build_step', 'FB.build_step_valid', 'FB.clean_step', 'FB.cacheOK_of_userOK', 'FB.cacheOK_next',
+                   'FB.run_follows', 'FB.follows_registered', 'FB.run_outputs', 'FB.buildGo_step', 'FB.faithfulRec_of_hash',
+                   'FB.follows_allHash', 'FB.hinv_init', 'FB.buildGo_refines', 'FB.first_build_refines', 'FB.run_refines', 'FB.replay_sound', 'FB.replay_simple_sound',
                    'FB.faithful_of_hash', 'FB.C01_subbuild_hit_transparent', 'FB.View.sim_answer', 'FB.run_keeps_claimed',
                    'FB.run_pending', 'FB.sim_bfFinish', 'FB.CacheOK.empty']
 THEOREMS['C05'] = ['FB.run_refines', 'FB.replay_sound', 'FB.C13_read_replay']
